@@ -23,7 +23,7 @@ from checks import c02, c04
 from vkit.core import Sub, Violation, given_run
 from vkit.gen.choice import from_bytes
 from vkit.harness.resolvers import AsyncPlan, Boom, make_async_resolvers
-from vkit.harness.sched import Hang, Sched
+from vkit.harness.sched import Hang, Sched, StepLimit
 from vkit.ref import execute as R5
 
 ID = "C06"
@@ -51,7 +51,7 @@ def run_stop(env, op_name, variables, oseed, density, plan, schedule, early, sto
     from graphql.pyutils import AbortController
 
     oracle = R5.Oracle(env.m, oseed, density)
-    sched = Sched(schedule)
+    sched = Sched(schedule, max_steps=60000 if plan.long else 4000)
     events, log, sources = [], [], []
     stats = {"inflight": 0}
     resolve, resolve_type = make_async_resolvers(oracle, sched, plan, events, log, env.out_names,
@@ -166,7 +166,7 @@ def run_stop(env, op_name, variables, oseed, density, plan, schedule, early, sto
         out["unhandled"] = list(sched.unhandled)
         sched.drain(release_all=False)
         out["inflight_quiescent"] = stats["inflight"]  # work that only ends when the outside world does
-        ok = sched.drain()
+        ok = sched.drain(rounds=20000 if plan.long else 200)
         out["drained"] = ok
         out["tasks_left"] = [repr(t.get_coro())[:80] for t in sched.unfinished_tasks()]
         out["inflight_end"] = stats["inflight"]
@@ -198,6 +198,8 @@ def eval_run(env, sc, op_name, variables, oseed, density, plan_spec, schedule, e
     except Hang as h:
         bad("hang", str(h))
         return vs, None
+    except StepLimit:
+        return vs, None  # inconclusive: not counted as an evaluation
     except Exception as e:  # noqa: BLE001
         bad("harness-or-library-raises", f"{type(e).__name__}: {e}")
         return vs, None
@@ -292,6 +294,12 @@ def g_scenario(c, n_sched=3):
             stop["plain"] = True
         stops.append([c.pick(2), c.pick(2), stop])
     sc["stops"] = stops
+    if not plain and c.chance(60):
+        # back-pressure stratum: top-level lists stretched to just below / at / above the capacity (100) of
+        # the stream item queue, so that the producer parks on the full queue or on its final entry
+        long = c.choose([99, 100, 101, 102, 103, 130])
+        sc["plans"] = [list(p[:5]) + [long] for p in sc["plans"]]
+        sc["long"] = long
     return sc
 
 
@@ -303,6 +311,8 @@ def _scenarios(nex, n_sched):
             ctx.cls("status:" + status)
             for _d, _p, stop in sc["stops"]:
                 ctx.cls("stop:" + stop["kind"] + (":plain" if stop.get("plain") else ""))
+            if sc.get("long"):
+                ctx.cls("long-list-stratum" + (":with-stream" if "@stream" in str(sc["doc"]["tree"]["defs"][0]["sel"])[:4000] else ""))
             for x in nt:
                 ctx.nontriv(x)
             if nt:
@@ -310,6 +320,289 @@ def _scenarios(nex, n_sched):
             ctx.check(vs)
 
         given_run(ctx, from_bytes(lambda c: g_scenario(c, n_sched), 3072), body, max_examples=nex)
+
+    return fn
+
+
+# ---- back-pressure of the stream item queue (capacity 100, not configurable from outside) ------------
+
+BP_SDL = """
+type Query { xs(n: Int): [X!]  ys(n: Int): [Int]  zs(n: Int): [X] }
+type X { id: Int  tail: [Int]  slow: Int }
+"""
+BP_DOCS = [
+    "{ ys(n: %d) @stream(initialCount: %d) }",
+    "{ xs(n: %d) @stream(initialCount: %d) { id } }",
+    "{ xs(n: %d) @stream(initialCount: %d) { id tail @stream(initialCount: 1) } }",
+    "{ zs(n: %d) @stream(initialCount: %d) { id ... @defer(label: \"D\") { slow } } }",
+    "{ ... @defer(label: \"D0\") { ys(n: %d) @stream(initialCount: %d) } }",
+]
+_BP = {}
+
+
+def bp_schema():
+    if "schema" not in _BP:
+        from graphql import build_schema
+
+        _BP["schema"] = build_schema(BP_SDL)
+    return _BP["schema"]
+
+
+def run_backpressure(case):
+    """One run of a long streamed list; returns the observations of the stop invariants plus the items
+    that the consumer assembled."""
+    from inspect import isawaitable
+
+    from graphql import ExecutionResult, parse
+    from graphql.execution import ExecutionHooks, experimental_execute_incrementally
+    from graphql.execution.aborted_graphql_execution_error import AbortedGraphQLExecutionError
+    from graphql.pyutils import AbortController
+
+    n, k = case["n"], case["initial"]
+    doc = parse(BP_DOCS[case["doc"]] % (n, k))
+    sched = Sched(case["schedule"], max_steps=30000)
+    stats = {"inflight": 0}
+    sources = []
+    gated = set(case["gated"])
+    fail_at = case.get("fail_at")
+    stop = case["stop"]
+
+    def later(label, value):
+        async def run():
+            stats["inflight"] += 1
+            try:
+                await sched.gate(label)
+                return value
+            finally:
+                stats["inflight"] -= 1
+        return run()
+
+    def make_list(name, count, item):
+        kind = case["source"]
+        if kind == "list":
+            return [later(f"i:{name}/{i}", item(i)) if i in gated else item(i) for i in range(count)]
+        rec = {"path": [name], "started": 0, "finalized": 0, "next_calls": 0}
+        sources.append(rec)
+
+        async def agen():
+            rec["started"] += 1
+            try:
+                for i in range(count):
+                    rec["next_calls"] += 1
+                    if i in gated:
+                        await sched.gate(f"it:{name}/{i}")
+                    if fail_at == i:
+                        raise Boom("source failed")
+                    yield item(i)
+            finally:
+                rec["finalized"] += 1
+        return agen()
+
+    def x(i):
+        return {"id": i, "tail": [i, i + 1, i + 2], "slow": (lambda _info: later(f"f:slow/{i}", i)) if i in gated else i}
+
+    root = {"ys": lambda _info, n=0: make_list("ys", n, lambda i: i),
+            "xs": lambda _info, n=0: make_list("xs", n, x),
+            "zs": lambda _info, n=0: make_list("zs", n, x)}
+    controller = AbortController()
+    hook_calls = []
+    out = {"payloads": 0, "end": None, "raised": None, "stop_done": False, "items": None, "initial": None,
+           "incremental": [], "awaiting_library": False, "prompt_violation": None}
+    frozen = {"on": False}
+    reason = {"none": None, "exc": Boom("abort reason"), "str": "stop it"}[stop.get("reason", "none")]
+
+    def hook(_info):
+        hook_calls.append({"inflight": stats["inflight"],
+                           "open_sources": sum(1 for s_ in sources if s_["started"] and not s_["finalized"])})
+
+    def on_quiescent(s_):
+        if frozen["on"]:
+            frozen["on"] = False
+            if not s_.main_task.done() and out["awaiting_library"]:
+                out["prompt_violation"] = f"after {stop['kind']} the caller was still waiting at the next quiescence"
+
+    sched.on_quiescent = on_quiescent
+
+    def do_abort():
+        out["stop_done"] = True
+        frozen["on"] = True
+        controller.abort(reason)
+
+    if stop["kind"] == "abort":
+        sched.add_action("abort", lambda: (not out["stop_done"]) and out["payloads"] >= stop["after"]
+                         and out["initial"] is not None, do_abort)
+
+    async def lib(awaitable):
+        out["awaiting_library"] = True
+        try:
+            return await awaitable
+        finally:
+            out["awaiting_library"] = False
+
+    async def main():
+        try:
+            r = experimental_execute_incrementally(
+                bp_schema(), doc, root, enable_early_execution=case["early"], abort_signal=controller.signal,
+                hooks=ExecutionHooks(async_work_finished=hook))
+            if isawaitable(r):
+                r = await lib(r)
+        except AbortedGraphQLExecutionError as e:
+            out["end"] = "aborted"
+            res = e.aborted_result
+            if isawaitable(res):
+                res = await res
+            sub = getattr(res, "subsequent_results", None)
+            if sub is not None:
+                await sub.aclose()
+            return
+        if isinstance(r, ExecutionResult):
+            out["end"] = "single"
+            out["initial"] = r.formatted
+            return
+        out["initial"] = r.initial_result.formatted
+        it = r.subsequent_results
+        while True:
+            if stop["kind"] == "aclose" and out["payloads"] == stop["after"]:
+                out["stop_done"] = True
+                frozen["on"] = True
+                await lib(it.aclose())
+                out["end"] = "closed"
+                return
+            await sched.gate(f"pull:{out['payloads']}")
+            try:
+                p = await lib(it.__anext__())
+            except StopAsyncIteration:
+                out["end"] = "stop"
+                return
+            except Exception as e:  # noqa: BLE001
+                out["raised"] = e
+                out["end"] = "raised"
+                await it.aclose()
+                return
+            out["payloads"] += 1
+            out["incremental"].append(p.formatted)
+
+    try:
+        sched.run(main())
+        out["unhandled"] = list(sched.unhandled)
+        sched.drain(release_all=False)
+        out["drained"] = sched.drain(rounds=5000)
+        out["tasks_left"] = [repr(t.get_coro())[:80] for t in sched.unfinished_tasks()]
+        out["inflight_end"] = stats["inflight"]
+        out["sources"] = [dict(s_) for s_ in sources]
+        out["hook_calls"] = hook_calls
+        return out
+    finally:
+        sched.close()
+
+
+def eval_backpressure(case, prop="C06"):
+    """prop == "C06": the stop invariants; prop == "C04": only reassembly of the streamed list (complete, in
+    order, no duplicates) when the consumer reads to the end."""
+    vs = []
+    stop = case["stop"]
+
+    def bad(rel, detail):
+        if (prop == "C04") != (rel in ("items-lost-or-reordered", "stream-end")):
+            return
+        vs.append(Violation((prop, "bp-" + rel, stop["kind"]),
+                            f"{detail}; n={case['n']} initialCount={case['initial']} doc "
+                            f"{BP_DOCS[case['doc']]!r} source {case['source']} gated {case['gated']} fail_at "
+                            f"{case.get('fail_at')} early {case['early']} stop {stop} schedule {case['schedule']}",
+                            case, {"relation": rel, "stop_kind": stop["kind"], "mode": "backpressure"}))
+
+    try:
+        out = run_backpressure(case)
+    except Hang as h:
+        bad("hang", str(h))
+        return vs, 0, False
+    except StepLimit:
+        return vs, 0, False
+    except Exception as e:  # noqa: BLE001
+        bad("harness-or-library-raises", f"{type(e).__name__}: {e}")
+        return vs, 0, False
+    if out["prompt_violation"]:
+        bad("prompt-release", out["prompt_violation"])
+    if not out.get("drained", True):
+        bad("no-quiescence", "the loop did not reach quiescence after releasing every gate")
+    if out["tasks_left"]:
+        bad("task-leak", f"{len(out['tasks_left'])} unfinished task(s): {out['tasks_left'][:2]}")
+    if out["inflight_end"]:
+        bad("resolver-leak", f"{out['inflight_end']} awaitable item(s)/field(s) still in flight")
+    for s_ in out["sources"]:
+        if s_["started"] and s_["finalized"] != 1:
+            bad("source-not-closed", f"{s_}")
+    hc = out["hook_calls"]
+    if len(hc) != 1:
+        bad("hook-count", f"async_work_finished fired {len(hc)} times")
+    elif hc[0]["inflight"] or hc[0]["open_sources"]:
+        bad("hook-too-early", f"async_work_finished fired with {hc[0]}")
+    if out["unhandled"]:
+        bad("unhandled-loop-exception", f"{out['unhandled'][:2]}")
+    # completeness / order / no duplicates when the consumer reads to the end and nothing fails
+    name = ["ys", "xs", "xs", "zs", "ys"][case["doc"]]
+    if stop["kind"] == "none" and out["end"] == "stop" and case.get("fail_at") is None:
+        init = out["initial"].get("data") or {}
+        got = list(init.get(name) or [])
+        ids = {}
+        for p_ in out["initial"].get("pending", []):
+            ids[p_["id"]] = p_
+        for p in out["incremental"]:
+            for p_ in p.get("pending", []) or []:
+                ids[p_["id"]] = p_
+            for inc in p.get("incremental", []) or []:
+                tgt = ids.get(inc["id"], {})
+                if "items" in inc and tgt.get("path") == [name]:
+                    got.extend(inc["items"])
+                elif "data" in inc and tgt.get("path") == [] and name in (inc["data"] or {}):
+                    got = list(inc["data"][name]) + got
+        key = [g["id"] if isinstance(g, dict) else g for g in got]
+        if key != list(range(case["n"])):
+            miss = sorted(set(range(case["n"])) - set(key))[:5]
+            bad("items-lost-or-reordered", f"assembled {len(key)} items, expected {case['n']} in order; "
+                f"first missing {miss}, head {key[:5]}, tail {key[-5:]}")
+    if stop["kind"] == "none" and out["end"] not in ("stop", "raised", "single"):
+        bad("stream-end", f"ended with {out['end']}")
+    nontrivial = case["n"] - case["initial"] >= 100
+    return vs, 1, nontrivial
+
+
+def g_backpressure(c):
+    initial = c.choose([0, 0, 1, 2])
+    k = c.pick(10)
+    if k <= 2:
+        stop = {"kind": "none"}
+    elif k <= 5:
+        stop = {"kind": "aclose", "after": c.choose([0, 0, 1, 1, 2, 3])}
+    else:
+        stop = {"kind": "abort", "after": c.choose([0, 0, 1, 2]), "reason": c.choose(["none", "exc", "str"])}
+    if c.chance(400):
+        # the source ends exactly when the buffer is full: the producer parks on its final entry
+        n = initial + 100 * (stop.get("after", 0) + 1) + c.choose([0, 0, 0, 1, -1])
+    else:
+        n = c.choose([99, 100, 101, 102, 103, 150, 199, 200, 201, 202, 203, 230, 301])
+    near = [0, 1, 98, 99, 100, 101, 102, initial + 99, initial + 100, initial + 101, 199, 200, 201, n - 2, n - 1]
+    gated = sorted({x_ for x_ in (c.choose(near) for _ in range(c.count(0, 4))) if 0 <= x_ < n})
+    return {"n": n, "initial": initial, "doc": c.pick(len(BP_DOCS)), "source": c.choose(["list", "agen", "agen"]),
+            "gated": gated, "fail_at": c.choose(near) if c.chance(80) else None, "early": c.chance(600),
+            "stop": stop, "schedule": c.ints(40, 8)}
+
+
+def _backpressure(nex):
+    def fn(ctx, shard, nshards):
+        def body(case):
+            if case["fail_at"] is not None and not 0 <= case["fail_at"] < case["n"]:
+                case = dict(case, fail_at=None)
+            vs, n, nt = eval_backpressure(case)
+            ctx.count(n)
+            ctx.cls("bp-stop:" + case["stop"]["kind"])
+            ctx.cls("bp-source:" + case["source"] + (":early" if case["early"] else ":lazy"))
+            if nt:
+                ctx.nontriv({k_: case[k_] for k_ in ("n", "initial", "doc", "source", "gated", "fail_at", "early", "stop")},
+                            "bp:" + case["stop"]["kind"])
+            ctx.check(vs)
+
+        given_run(ctx, from_bytes(g_backpressure, 256), body, max_examples=nex)
 
     return fn
 
@@ -362,6 +655,8 @@ def eval_subscription(sc):
                 out = c07.run_once(env, sc, schedule, stop=stop)
             except Hang as h:
                 bad("hang", str(h))
+                continue
+            except StepLimit:
                 continue
             except Exception as e:  # noqa: BLE001
                 bad("harness-or-library-raises", f"{type(e).__name__}: {e}")
@@ -417,13 +712,17 @@ def _subscriptions(nex, n_sched):
 
 def subchecks(tier):
     if tier == "quick":
-        return [Sub("scenarios", _scenarios(300, 3), shards=12, weight=3),
-                Sub("subscriptions", _subscriptions(250, 3), shards=4, weight=1)]
+        return [Sub("scenarios", _scenarios(300, 3), shards=10, weight=3),
+                Sub("subscriptions", _subscriptions(250, 3), shards=3, weight=1),
+                Sub("backpressure", _backpressure(150), shards=3, weight=1)]
     return [Sub("scenarios", _scenarios(16000, 8), shards=16, weight=3),
-            Sub("subscriptions", _subscriptions(6000, 6), shards=16, weight=1)]
+            Sub("subscriptions", _subscriptions(6000, 6), shards=16, weight=1),
+            Sub("backpressure", _backpressure(3000), shards=16, weight=1)]
 
 
 def replay(case):
     if "sub_stops" in case:
         return eval_subscription(case)[0]
+    if "gated" in case and "n" in case:
+        return eval_backpressure(case)[0]
     return eval_scenario(case)[0]
